@@ -245,6 +245,10 @@ func getPrevSnapshot(testID, snapPath string) (string, int, error) {
 }
 
 func addNewSnapshot(testID, snapshot, snapPath string) error {
+	// appending must not interleave with updateSnapshot's read-modify-write of the same file
+	_m.Lock()
+	defer _m.Unlock()
+
 	if err := os.MkdirAll(filepath.Dir(snapPath), os.ModePerm); err != nil {
 		return err
 	}
